@@ -202,7 +202,10 @@ pub fn run(ctx: &Ctx) -> ! {
     let mut uni_one = Universe::sverif();
     uni_one.datasets.truncate(1);
     let stats = corpus::drive(ctx, &uni_one, &cfg, &|cq| check_query(ctx, &uni, cq, &counters, &samples, &sigs), &|_| {}, &|_, _| {});
+    let cfg_v = corpus::var_reuse_cfg(&uni);
+    let stats_v = corpus::drive(ctx, &uni_one, &cfg_v, &|cq| check_query(ctx, &uni, cq, &counters, &samples, &sigs), &|_| {}, &|_, _| {});
     let mut c = cov();
+    c.insert("corpus_variable_reuse".into(), stats_v.to_json());
     c.insert("evaluations".into(), json!(counters.maps.load(Ordering::Relaxed)));
     c.insert("distinct_nontrivial".into(), json!(counters.queries.load(Ordering::Relaxed)));
     c.insert("rule".into(), json!("for every accepted query within k deviations having 1..=3 variables: every argument map over {absent} + a 17-value alphabet (null, ints incl. i64::MIN / u64::MAX, float, strings, bool, Enum, empty / int / null / string / mixed / nested lists) per variable (7 values when there are 3 variables), with and without one surplus name; accepted iff complete, no surplus and every value fits the variable type computed from the AST; on refusal the missing / unused / mistyped names must be exactly the offending ones; evaluations = argument maps validated; non-trivial = distinct queries"));
@@ -211,7 +214,7 @@ pub fn run(ctx: &Ctx) -> ! {
     c.insert("distinct_variable_type_signatures".into(), json!(sigs.lock().unwrap().iter().cloned().collect::<Vec<_>>()));
     c.insert("corpus".into(), stats.to_json());
     c.insert("samples".into(), json!(samples.lock().unwrap().items));
-    c.insert("exhaustive".into(), json!(!stats.capped));
+    c.insert("exhaustive".into(), json!(!stats.capped && !stats_v.capped));
     ctx.finish(
         "exploration",
         c,
